@@ -31,26 +31,78 @@ func init() {
 
 // refreshLoopFn: the function containing a time.NewTicker whose closures (or itself) issue Update.
 func (m *Model) refreshLoopFn() *ssa.Function {
+	if m.refreshFn != nil {
+		return m.refreshFn
+	}
 	for _, f := range m.Funcs {
 		if f.Parent() != nil {
 			continue
 		}
 		hasTicker, hasUpdate := false, false
-		for _, g := range withClosures(f) {
+		eachInstr(f, func(in ssa.Instruction) {
+			if _, ok := isCallTo(valueOf(in), "time.NewTicker"); ok {
+				hasTicker = true
+			}
+		})
+		if !hasTicker {
+			continue
+		}
+		for _, g := range m.unitFns(f) {
 			eachInstr(g, func(in ssa.Instruction) {
-				if _, ok := isCallTo(valueOf(in), "time.NewTicker"); ok && g == f {
-					hasTicker = true
-				}
 				if _, ok := m.isKVCall(valueOf(in), "Update"); ok {
 					hasUpdate = true
 				}
 			})
 		}
-		if hasTicker && hasUpdate {
+		if hasUpdate {
+			m.refreshFn = f
 			return f
 		}
 	}
 	return nil
+}
+
+// unitFns: f, its closures, and the library functions that have exactly one call site (a call,
+// go or defer) which lies in those - the code that belongs to f alone, however it is split up.
+func (m *Model) unitFns(f *ssa.Function) []*ssa.Function {
+	if r, ok := m.unitMemo[f]; ok {
+		return r
+	}
+	out := []*ssa.Function{}
+	seen := map[*ssa.Function]bool{}
+	var add func(g *ssa.Function)
+	add = func(g *ssa.Function) {
+		if g == nil || seen[g] || g.Blocks == nil || !m.isLib(g) {
+			return
+		}
+		seen[g] = true
+		out = append(out, g)
+		for _, h := range g.AnonFuncs {
+			add(h)
+		}
+		eachInstr(g, func(in ssa.Instruction) {
+			ci, ok := in.(ssa.CallInstruction)
+			if !ok {
+				return
+			}
+			h := ci.Common().StaticCallee()
+			if h == nil || h.Parent() != nil || !m.isLib(h) {
+				return
+			}
+			if obj := h.Object(); obj != nil && obj.Exported() {
+				return // callable from outside the library: not part of f alone
+			}
+			if sites := m.callers[h]; len(sites) == 1 {
+				add(h)
+			}
+		})
+	}
+	add(f)
+	if m.unitMemo == nil {
+		m.unitMemo = map[*ssa.Function][]*ssa.Function{}
+	}
+	m.unitMemo[f] = out
+	return out
 }
 
 func (m *Model) classifyOp(op StoreOp) string {
@@ -60,7 +112,7 @@ func (m *Model) classifyOp(op StoreOp) string {
 	case "Create":
 		return "create"
 	case "Update":
-		if rf := m.refreshLoopFn(); rf != nil && topFunc(op.Fn) == rf {
+		if rf := m.refreshLoopFn(); rf != nil && containsFn(m.unitFns(rf), op.Fn) {
 			return "refresh"
 		}
 		return "takeover"
